@@ -30,6 +30,20 @@ def mcdung(res, n=3):
     return afs
 
 
+def n_components(a):
+    """number of weakly connected components of a framework description"""
+    parent = list(range(a["n"] + 1))
+
+    def find(x):
+        while parent[x] != x:
+            parent[x] = parent[parent[x]]
+            x = parent[x]
+        return x
+    for x, y in a["att"]:
+        parent[find(x)] = find(y)
+    return len(set(find(i) for i in range(1, a["n"] + 1)))
+
+
 def af_sets(res, tier, want_large=True):
     """returns dict name -> list of AFs"""
     s = seed()
@@ -371,6 +385,13 @@ def dynamic_check(pid, tier, mode):
     # (MCBatch), one query round at the end -- what the lazily replayed buffer must amount to, whatever the batch cancels or re-creates
     bfile, nb = export_replay(res, "MCBatch.tla", open(os.path.join(vlib.SPEC, "MCBatch.cfg")).read(), "MCBatch")
     runs.append(("batches", ["--hists", bfile, "--labels", 2, "--oracle", "real", "--perhist", 3 if thorough else 1], nb))
+    # target frameworks: the frameworks used for the static solvers (random 4-8 arguments, shaped <= 9) built through an update history with
+    # detours, then queried in random order with repetitions, one attack removed / put back (caches and incremental state on real structures)
+    targets = afgen.random_afs(seed() + 11, 1200 if thorough else 300, 4, 8) + [a for a in afgen.shaped() if 2 <= a["n"] <= 9]
+    tfile = os.path.join(res.wd, "targets.afs.jsonl")
+    afgen.write(tfile, targets)
+    runs.append(("targets", ["--targets", tfile, "--perhist", 4 if thorough else 2, "--oracle", "real"], len(targets)))
+    runs.append(("targets_rand", ["--targets", tfile, "--perhist", 2 if thorough else 1, "--oracle", "random"], len(targets)))
     runs.append(("walks_real", ["--walks", 3000 if thorough else 520, "--len", 60, "--oracle", "real"], 0))
     runs.append(("walks_rand", ["--walks", 1500 if thorough else 260, "--len", 40, "--oracle", "random"], 0))
     runs.append(("longwalks", ["--walks", 260 if thorough else 52, "--len", 300, "--oracle", "real"], 0))
@@ -470,6 +491,14 @@ def c06(tier):
     segs = [[e for e in s if e["ev"] in ("af", "agree", "frame")] for s in segs]
     t1, st = vlib.judge("TraceStatic.tla", segs, res.wd, "schedules", shards=8)
     res.add_judge("model_schedules", t1, st, only_props={"C06"})
+    # ... and on components of 40-500 arguments (frameworks padded with sinks, core ids spread with strides of 32 / 64): encoders that differ
+    # only beyond a size or on an id pattern
+    segs_p = run_static(res, "C06_padded", sets["rand"][:(250 if thorough else 100)] + sets["iso4"][:60], sems="CO,PR,ST,ID", kinds="DC,DS", cert="both",
+                        present="padded", oracle="dfs", budget=2, agree="yes", cap=400)
+    segs_p = [[e for e in s if e["ev"] in ("af", "agree", "frame")] for s in segs_p]
+    t1, st = vlib.judge("TraceStatic.tla", segs_p, res.wd, "padded", shards=8)
+    res.add_judge("padded_components", t1, st, only_props={"C06"})
+    segs += segs_p
     nt += sum(1 for s in segs for e in s if e.get("ev") == "agree" and e["n"] >= 4)
     res.nontrivial = nt
     res.rule = ("per framework and per (semantics, DC|DS): one solver object per (encoder, backend) answers a seeded sequence of 2n+2 queries with "
@@ -553,10 +582,16 @@ def c17(tier):
              ("unknown_iso4", sets["iso4"] if thorough else sets["iso4"][:200], dict(fault="yes", present="compact")),
              ("unknown_shaped", sets["shaped"], dict(fault="yes", present="compact")),
              ("unknown_rand", sets["rand"] if thorough else sets["rand"][:120], dict(fault="yes", present="compact"))]
+    # lists of two arguments on frameworks with several components: the list-specific code paths (merged components, completion of an
+    # answer on the components that hold no queried argument) make SAT calls that single-argument queries never reach
+    multi = [a for a in sets["ref3"] + sets["iso4"][:200] + sets["shaped"] + sets["rand"][:60] if a["n"] <= 6 and n_components(a) >= 2]
+    plans.append(("unknown_lists", multi if thorough else random.Random(seed()).sample(multi, min(len(multi), 150)), dict(fault="yes", present="compact", lists=2)))
     rng = random.Random(seed())
     sample = rng.sample(sets["ref3"], 531 if thorough else 40) + [a for a in sets["shaped"] if a["n"] <= 7][:10]
     for mode in ("silent", "truncated", "garbage", "nomodel", "crash", "vnozero", "lategarbage:9000", "lategarbage:70000"):
         plans.append(("process_" + mode, sample, dict(failing="yes", present="compact", backend="ext:%s|--mode|%s" % (FAKESAT, mode), enc="default")))
+    plans.append(("process_fails_at_call_k", random.Random(seed()).sample(multi, min(len(multi), 200 if thorough else 50)),
+                  dict(present="compact", enc="default", lists=2, procfault="silent", fakesat=FAKESAT, tmp=os.path.join(res.wd, "ctr"))))
     for name, afs, opts in plans:
         segs = run_static(res, "C17_" + name, afs, sems="CO,PR,ST,SST,STG,ID", kinds="SE,DC,DS", cert="both", oracle="real", **opts)
         t1, st = vlib.judge("TraceStatic.tla", segs, res.wd, "C17_" + name)
@@ -685,6 +720,15 @@ def c16(tier):
         os.remove(logf)
     backend = "ext:%s|--log|%s" % (FAKESAT, logf)
     segs_q = run_static(res, "C16_queries", afs, sems="CO,PR,ST,SST,STG,ID", kinds="SE,DC,DS", cert="both", present="compact", oracle="real", backend=backend)
+    # the exchange fails at one SAT-call position of a query (a faithful external solver whose K-th call prints nothing / a truncated reply):
+    # the query must abort, whatever call it is -- lists of two arguments over several components reach the calls single arguments never make
+    multi = [a for a in sets["ref3"] + sets["shaped"] + sets["rand"][:60] if a["n"] <= 6 and n_components(a) >= 2]
+    pf_afs = rng.sample(multi, min(len(multi), 200 if thorough else 50)) + rng.sample(sets["ref3"], 60 if thorough else 15)
+    for sub in ("silent", "truncated"):
+        segs_pf = run_static(res, "C16_procfault_" + sub, pf_afs, sems="CO,PR,ST,SST,STG,ID", kinds="DC,DS", cert="both", present="compact", oracle="real",
+                             enc="default", lists=2, procfault=sub, fakesat=FAKESAT, tmp=os.path.join(res.wd, "ctr"))
+        t1p, stp = vlib.judge("TraceStatic.tla", segs_pf, res.wd, "procfault_" + sub)
+        res.add_judge("exchange_fails_at_call_k_" + sub, t1p, stp, only_props={"C16"})
     # ... and by the dynamic solvers (selectors, retired variables, variables that occur only negatively)
     res_tmp = Result.__new__(Result)
     res_tmp.wd = res.wd
@@ -831,7 +875,8 @@ def c10(tier):
         out = os.path.join(res.wd, name + ".ndjson")
         afgen.write(afile, afs)
         t = time.time()
-        vlib.vh(["enc", "--afs", afile, "--out", out, "--threads", vlib.NCPU, "--clauses_upto", 9, "--pad", "yes" if name == "padded" else "no"])
+        vlib.vh(["enc", "--afs", afile, "--out", out, "--threads", vlib.NCPU, "--clauses_upto", 9, "--pad", "yes" if name == "padded" else "no",
+                 "--seed", seed()] + (["--huge", 60 if thorough else 18] if name == "padded" else []))
         segs = vlib.segments(out, openers=("af",))
         log("  RUN enc %-8s %5d frameworks -> %6d clause sets %.1fs" % (name, len(afs), sum(len(s) - 1 for s in segs), time.time() - t))
         t1, st = vlib.judge("TraceEnc.tla", segs, res.wd, name, shards=8)
